@@ -441,13 +441,20 @@ theorem C12_abbreviation_tail_counterexample :
       (some ["m.emb", "Foo", "long_name"], []) ∧
     (lookup exT ["m.emb", "Foo", "ln"]).map (·.vis) = some Vis.priv := by decide
 
-/-- `p.x` where `p` is a runtime parameter: `_resolve_field_reference` treats the parameter
-as a virtual field and raises AttributeError (`read_transform`); the model's outcome is
-`crash`.  Replayed on the real code: findings.d/C12.json. -/
-theorem C12_member_of_parameter_counterexample :
-    let E : FEnv := { objs := [⟨["m.emb", "Foo", "p"], .param⟩], typeCanon := fun _ => none,
-                      headCanon := fun _ => some ["m.emb", "Foo", "p"],
-                      frefs := fun _ => some ⟨ctxFoo, [⟨"p", 1, 1⟩, ⟨"x", 2, 2⟩]⟩ }
-    (match resolveFRef E 10 0 with | .crash => true | _ => false) = true := by decide
+/-- Test (fix 8da3027 of /repo): `p.x` where `p` is a runtime parameter is answered with
+`Cannot access member of noncomposite field 'p'` located at the reference `p` (it used to be an
+AttributeError, model outcome `crash`); the same through a virtual alias `let q = p` … `q.x`
+(error names `q`). -/
+example :
+    let objs : List Obj := [⟨["m.emb", "Foo", "p"], .param⟩, ⟨["m.emb", "Foo", "q"], .field (.virtAlias 1)⟩]
+    let E : FEnv := { objs := objs, typeCanon := fun _ => none,
+                      headCanon := fun i => if i = 2 then some ["m.emb", "Foo", "q"] else some ["m.emb", "Foo", "p"],
+                      frefs := fun i =>
+                        if i = 0 then some ⟨ctxFoo, [⟨"p", 1, 2⟩, ⟨"x", 3, 4⟩]⟩
+                        else if i = 1 then some ⟨ctxFoo, [⟨"p", 5, 6⟩]⟩
+                        else some ⟨ctxFoo, [⟨"q", 7, 8⟩, ⟨"x", 9, 10⟩]⟩ }
+    (match resolveFRef E 10 0 with | .err (.noncomposite "p" 2) => true | _ => false) = true ∧
+    (match resolveFRef E 10 2 with | .err (.noncomposite "q" 8) => true | _ => false) = true := by
+  decide
 
 end Emboss.Scope
